@@ -252,6 +252,14 @@ def mk_complement(name, rotation=None, keep=False, hetero=None, icodes=False, le
             # hydrogens supplied under old-style names (1HD2, 2HH1, ...), default options: they are discarded and rebuilt
             from .c04 import with_hydrogens_text
             mol = M.run(with_hydrogens_text(name, legacy_names=True), transform=tr)
+        elif keep == 'one-missing':
+            # --keep-protons on a structure that carries all of the program's hydrogens but one (any one of them: fork):
+            # the atom that lost it is partially protonated when the program comes to it, and gets the missing hydrogen back
+            from .c04 import with_hydrogens_text
+            lines = [l for l in with_hydrogens_text(name).split('\n') if l]
+            hyd = [i for i, l in enumerate(lines) if l.startswith('ATOM') and l[76:78].strip() == 'H']
+            drop = hyd[ctx.choice('missing_hydrogen', list(range(len(hyd))))]
+            mol = M.run('\n'.join(l for i, l in enumerate(lines) if i != drop) + '\n', args=['--keep-protons'], transform=tr)
         elif keep:
             from .c04 import with_hydrogens_text
             mol = M.run(with_hydrogens_text(name), args=['--keep-protons'], transform=tr)
@@ -346,6 +354,11 @@ def obligations(tier):
         obs.append(Obligation('O3-complement-and-placement[%s,keep-protons]' % name, mk_complement(name, keep=True), code=pipe + ['propka/bonds.py:BondMaker.check_distance'],
                               bounds='%s with the hydrogens supplied (the program\'s own, incl. H...O contacts below 2 A), --keep-protons, symbolic grid translation' % name,
                               claim_doc='as O3: in particular every hydrogen is bonded to exactly one (heavy) atom and every group has its full complement', max_paths=5000, wall_s=170))
+    for name in (['tri_ARG', 'tri_LYS'] if tier == 'quick' else ['tri_ARG', 'tri_LYS', 'tri_ASN', 'tri_HIS', 'tri_TRP', 'pair_GLU_ARG_TYR']):
+        obs.append(Obligation('O3-complement-and-placement[%s,keep-protons,one hydrogen missing]' % name, mk_complement(name, keep='one-missing'), code=pipe + ['propka/protonate.py:Protonate.set_steric_number_and_lone_pairs'],
+                              bounds='%s with the program\'s own hydrogens supplied except one (each hydrogen in turn), --keep-protons, symbolic grid translation' % name,
+                              claim_doc='as O3: the partially protonated atom gets its missing hydrogen back (full complement, one neighbour each, hydrogens 0.5 A apart)', max_paths=5000, wall_s=170 if tier == 'quick' else 900,
+                              split_input=('missing_hydrogen', 2)))
     # 'the set of hydrogen positions is the same in every orientation': every constructed hydrogen (incl. sp3 C-H under
     # --protonate-all) is compared between the structure and its shifted copy (shared with C04)
     from .c04 import mk_translate
